@@ -1480,6 +1480,9 @@ def href_to_path(environ, href) -> Optional[str]:
     else:
         path = href[len(script_name) :]
         if not path.startswith("/"):
+            if path:
+                # e.g. "/davx/..." when the script name is "/dav"
+                return None
             path = "/" + path
         return path
 
